@@ -79,17 +79,18 @@ def deep_strip(t):
 
 
 class PathState:
-    __slots__ = ("env", "conds", "calls", "trace", "stores")
+    __slots__ = ("env", "conds", "calls", "trace", "stores", "sites")
 
-    def __init__(self, env=None, conds=(), calls=(), trace=(), stores=()):
+    def __init__(self, env=None, conds=(), calls=(), trace=(), stores=(), sites=()):
         self.env = env or {}
         self.conds = conds
         self.calls = calls
         self.trace = trace
         self.stores = stores
+        self.sites = sites            # call-site identity of each entry of `calls` (same order): ((block, visit), ...) with the sites of the inlining calls first
 
     def fork(self):
-        return PathState(dict(self.env), self.conds, self.calls, self.trace, self.stores)
+        return PathState(dict(self.env), self.conds, self.calls, self.trace, self.stores, self.sites)
 
 
 PURE_SUFFIXES = ("::eq", "::ne", "cmp::max", "cmp::min")
@@ -343,11 +344,13 @@ class SymExec:
                 if alts is None:
                     alts = self.default_call(cal, args, site, transparent, t)
                 st.calls = st.calls + ((cal, args, bb),)
+                st.sites = st.sites + (site,)
                 for ai, alt in enumerate(alts):
                     extra, val, div = alt[0], alt[1], alt[2]
                     s2 = st if ai == len(alts) - 1 else st.fork()
                     if len(alt) > 3 and alt[3]:
                         s2.calls = s2.calls + tuple(alt[3])      # calls made inside an inlined callee, in order
+                        s2.sites = s2.sites + (tuple(alt[5]) if len(alt) > 5 and alt[5] and len(alt[5]) == len(alt[3]) else tuple(None for _ in alt[3]))
                     ok = True
                     for c in extra:
                         if not self.consistent(s2, c):
@@ -477,7 +480,7 @@ class SymExec:
             alts = []
             for p in sub.paths(env):
                 div = "__diverged__" in p.env or "__cut__" in p.env
-                alts.append((p.conds, p.env.get(0, ("?", "ret")), div, p.calls, "__cut__" in p.env))
+                alts.append((p.conds, p.env.get(0, ("?", "ret")), div, p.calls, "__cut__" in p.env, p.sites))
             if sub.truncated:
                 self.truncated = True
             return alts
